@@ -40,6 +40,8 @@ var c13keys = []struct{ text, seq string }{
 	{`"\C-x\C-r"`, "\x18\x12"}, {`Control-a`, "\x01"}, {`"\e[A"`, "\x1b[A"}, {`a`, "a"}, {`"é"`, "é"}, {`Meta-x`, "ø"},
 	{`"\M-x"`, "ø"}, {`"\x1b[3~"`, "\x1b[3~"}, {`TAB`, "\t"}, {`"\C-?"`, "\x7f"}, {`Meta-Control-r`, "\x1b\x12"}, {`"ab"`, "ab"},
 	{`'q'`, "q"}, {`"\\"`, `\`}, {`"\""`, `"`}, {`C-x`, "\x18"}, {`RET`, "\r"}, {`"\033z"`, "\x1bz"}, {`"x y"`, "x y"}, {`SPC`, " "}, {`"#"`, "#"},
+	// control and meta of an escaped character, as `bind -p` prints them
+	{`"\M-\\"`, "\u00dc"}, {`"\C-\\"`, "\x1c"}, {`"\M-\e"`, "\u009b"}, {`"\M-\""`, "\u00a2"},
 }
 var c13acts = []string{"kill-line", "yank", "self-insert", "x", "beginning-of-line", "vi-movement-mode"}
 var c13macros = []struct{ text, val string }{{`"hello"`, "hello"}, {`"\C-a\C-k"`, "\x01\x0b"}, {`'it''s'`, "it"}, {`"a b"`, "a b"}, {`""`, ""}, {`"é\e"`, "é\x1b"}}
